@@ -142,6 +142,31 @@ impl<'a> BoundaryFeature<'a> {
     }
 }
 
+#[cfg(feature = "verif-hooks")]
+impl BoundaryFeature<'_> {
+    fn to_hook(&self) -> crate::verif_hooks::HookFeature {
+        use crate::verif_hooks::HookFeature;
+        match self {
+            Self::CharacterNgram(f) => HookFeature::CharNgram {
+                ngram: f.ngram.to_string(),
+                rel_position: f.rel_position,
+            },
+            Self::CharacterTypeNgram(f) => HookFeature::TypeNgram {
+                ngram: f.ngram.to_vec(),
+                rel_position: f.rel_position,
+            },
+            Self::DictionaryWord(f) => HookFeature::DictWord {
+                length: f.length,
+                position: match f.position {
+                    DictionaryWordPosition::Left => 0,
+                    DictionaryWordPosition::Inside => 1,
+                    DictionaryWordPosition::Right => 2,
+                },
+            },
+        }
+    }
+}
+
 #[derive(Clone, Copy)]
 struct DummyValue;
 
@@ -350,6 +375,8 @@ impl<'a> Trainer<'a> {
     ///
     /// If the solver returns an error, that will be propagated.
     pub fn train(self, epsilon: f64, cost: f64, solver: SolverType) -> Result<Model> {
+        #[cfg(feature = "verif-hooks")]
+        crate::verif_hooks::reset();
         let mut builder = liblinear::Builder::new();
         let training_input = liblinear::util::TrainingInput::from_sparse_features(self.ys, self.xs)
             .map_err(|e| VaporettoError::invalid_model(format!("liblinear error: {e:?}")))?;
@@ -391,10 +418,14 @@ impl<'a> Trainer<'a> {
         let mut dict_weights = vec![(0, 0, 0); usize::from(self.dict_word_max_len)];
 
         let bias = unsafe { (bias / quantize_multiplier).to_int_unchecked::<i32>() };
+        #[cfg(feature = "verif-hooks")]
+        crate::verif_hooks::record_bias(bias);
 
         for (feature, fid) in self.feature_ids {
             let raw_weight = model.feature_coefficient(i32::try_from(fid)?, wb_idx);
             let weight = unsafe { (raw_weight / quantize_multiplier).to_int_unchecked::<i32>() };
+            #[cfg(feature = "verif-hooks")]
+            crate::verif_hooks::record_boundary_weight(feature.to_hook(), weight);
 
             if weight == 0 {
                 continue;
@@ -484,6 +515,27 @@ impl<'a> Trainer<'a> {
             self.type_window_size,
             tag_models,
         ))
+    }
+
+    /// Returns the examples stored for the boundary learner, with features decoded.
+    #[cfg(feature = "verif-hooks")]
+    pub fn verif_examples(&self) -> Vec<crate::verif_hooks::ExampleRecord> {
+        let mut id_to_feature = HashMap::new();
+        for (feature, &fid) in &self.feature_ids {
+            id_to_feature.insert(fid, feature.to_hook());
+        }
+        self.xs
+            .iter()
+            .zip(&self.ys)
+            .map(|(x, &y)| {
+                let mut features: Vec<_> = x
+                    .iter()
+                    .map(|(fid, v)| (id_to_feature[fid].clone(), *v))
+                    .collect();
+                features.sort_by(|a, b| a.0.cmp(&b.0));
+                crate::verif_hooks::ExampleRecord { label: y, features }
+            })
+            .collect()
     }
 
     /// Returns the number of boundary features.
